@@ -242,7 +242,22 @@ func genScenario(rng *lib.Rand, class string, nvar map[string]int) scenario {
 	}
 	np := 1 + rng.Intn(6)
 	steps := 4 + rng.Intn(14)
+	multi := rng.Chance(15) // several sessions in this process
+	closedSess := map[int]bool{}
+	usedSess := map[int]bool{0: true}
 	for i := 0; i < steps; i++ {
+		if multi && rng.Chance(40) {
+			k := rng.Intn(3)
+			g.settle()
+			g.emit(fmt.Sprintf("@%d", k))
+			usedSess[k] = true
+			if rng.Chance(15) && !closedSess[k] && len(closedSess) < 2 {
+				g.settle()
+				g.emit(fmt.Sprintf("close.%d", k))
+				g.vt += 25
+				closedSess[k] = true
+			}
+		}
 		x := rng.Intn(100)
 		switch {
 		case g.nextP < np && x < 9:
@@ -340,6 +355,16 @@ func generate(r *lib.Run, rng *lib.Rand) []scenario {
 		scs = append(scs, scenario{next0: 700, class: "dst", toks: strings.Fields(
 			"vdr.0 s br.1.g.400 s f.dst4.1.0.1 s w.1 br.2.g.400 b4.3.g.400 f.dst4.3.0.8 f.dst4.2.0.15 s w.2 w.3 s vdr.4 s")})
 	}
+	// several sessions in one process share the waiter table: pings (v4, v6, router-source) pending on one
+	// session while another is created / used / closed; replies parsed by the pinging session, by another live
+	// session, by a closed session; identifiers handed out alternately; Close of the pinging session itself
+	scs = append(scs, scenario{next0: 900, class: "sess", toks: strings.Fields(
+		"@0 b4.0.g.400 @1 b6.1.g.500 br.2.g.500 s @0 close.0 s @1 f.rep6.1.0.1 s w.1 f.dst4.2.0.8 s w.2 s w.0 s @1 f.rep4.0.0.1 s")})
+	scs = append(scs, scenario{next0: 65534, class: "sess", toks: strings.Fields(
+		"@0 b4.0.g.500 @1 b4.1.g.500 @0 b6.2.g.500 @2 br.3.g.500 s @0 f.rep4.1.0.1 s w.1 @1 close.1 s @2 f.rep6.2.0.2 s w.2 " +
+			"@1 f.dst4.3.0.1 s w.3 @2 close.2 s @0 f.rep4.0.0.3 s w.0 s")})
+	scs = append(scs, scenario{next0: 910, class: "sess", toks: strings.Fields(
+		"@1 b6.0.g.2500 qr.1.300 f.dst4.1.0.1 z.1.T @0 close.0 closed.0 s @1 w.1 s @0 f.rep6.0.0.2 s w.0 s @1 b4.2.g.250 close.1 s w.2 s")})
 	// duplicate replies, 2-3 copies back to back and concurrently, while the call is inside its send and
 	// while it waits (IPv4, IPv6, router-source): the second notification must find no entry
 	scs = append(scs, scenario{next0: 800, class: "dup", toks: strings.Fields(
